@@ -56,13 +56,13 @@ func init() {
 		Run: runSetStorage,
 	})
 	register(&Rule{
-		ID: "C20.no-alias-out", Prop: "C20", Also: []string{"C07"}, Floor: 20, Controls: 1,
+		ID: "C20.no-alias-out", Prop: "C20", Also: []string{"C07", "C02", "C19"}, Floor: 20, Controls: 1,
 		Doc: "an exported function whose result is a Go reference (pointer, slice, map) does not hand out payload memory of a value or type without a copy; the documented read-only accessors are tabled by symbol",
 		Run: runNoAliasOut,
 	})
 	register(&Rule{
-		ID: "C20.no-retention-in", Prop: "C20", Floor: 20, Controls: 1,
-		Doc: "an exported function of package cty does not store a caller-owned slice, map or pointer parameter itself into the payload of the value or type it builds (it stores a copy); documented ownership transfers are tabled by symbol",
+		ID: "C20.no-retention-in", Prop: "C20", Also: []string{"C02", "C03"}, Floor: 20, Controls: 1,
+		Doc: "an exported function of package cty does not store a caller-owned slice, map or pointer parameter itself (or a helper set — ValueSet, PathSet, set.Set — as a whole, which shares its hash buckets) into the payload of the value or type it builds (it stores a copy); documented ownership transfers are tabled by symbol",
 		Run: runNoRetentionIn,
 	})
 }
@@ -549,6 +549,49 @@ func isMutableRef(t types.Type) bool {
 	return false
 }
 
+// isMutableCarrier: a struct passed by value that wraps shared mutable storage (the mutable helper sets:
+// copying the struct copies only the header, the hash buckets stay shared).
+func isMutableCarrier(t types.Type) bool {
+	n := namedTypeNoPtr(t)
+	if i := strings.Index(n, "["); i >= 0 {
+		n = n[:i]
+	}
+	switch n {
+	case "cty.ValueSet", "cty.PathSet", "cty/set.Set":
+		return true
+	}
+	if mi, ok := t.(*types.Interface); ok && mi != nil {
+		return false
+	}
+	return false
+}
+
+// wholeCarrierPath: the origin path ends at a helper set as a whole (or at its bucket map), not at an
+// immutable part of it (its rules, its element type).
+func wholeCarrierPath(p string) bool {
+	for _, suf := range []string{"cty.ValueSet.s", "cty.PathSet.set", "cty/set.Set.vals"} {
+		if strings.HasSuffix(p, suf) {
+			return true
+		}
+	}
+	return false
+}
+
+// unboxedType: the static type of v before it was boxed into an interface.
+func unboxedType(v ssa.Value) types.Type {
+	for {
+		switch x := v.(type) {
+		case *ssa.MakeInterface:
+			v = x.X
+			continue
+		case *ssa.ChangeType:
+			v = x.X
+			continue
+		}
+		return v.Type()
+	}
+}
+
 func exportedAPI(fn *ssa.Function) bool {
 	if fn.Parent() != nil || fn.Synthetic != "" {
 		return false
@@ -649,7 +692,7 @@ func runNoRetentionIn(rr *RuleRun) {
 			if i == 0 && fn.Signature.Recv() != nil {
 				continue
 			}
-			if isMutableRef(p.Type()) {
+			if isMutableRef(p.Type()) || isMutableCarrier(p.Type()) {
 				refParams = append(refParams, i)
 			}
 		}
@@ -673,10 +716,15 @@ func runNoRetentionIn(rr *RuleRun) {
 				}
 				stores++
 				for a := range x.origin(st.Val) {
-					if a.Class == oParam && a.Path == "" {
+					// the parameter itself, or a mutable carrier (a set wrapping its bucket map) read out of it
+					if a.Class == oParam && (a.Path == "" || (isMutableCarrier(unboxedType(st.Val)) && wholeCarrierPath(a.Path))) {
 						for _, i := range refParams {
 							if a.Idx == i {
-								bad = append(bad, fmt.Sprintf("parameter %s is stored into %s", a.Name, fk))
+								what := "parameter " + a.Name
+								if a.Path != "" {
+									what += a.Path
+								}
+								bad = append(bad, fmt.Sprintf("%s is stored into %s", what, fk))
 								badPos = instrPos(in)
 							}
 						}
